@@ -26,7 +26,7 @@ func (x *Exec) execInstr(fr *Frame, b *ssa.BasicBlock, st *State, in ssa.Instruc
 				key, stored, _ := x.leafKey(p, l)
 				arr := x.heapArr(st, key, stored)
 				st.heap[key] = Store(arr, ref, x.zeroOfSort(ArraySort(IntSort, l.Sort)))
-				x.written[key] = true
+				x.noteWrite(key, ref)
 			}
 			return
 		}
@@ -83,11 +83,11 @@ func (x *Exec) execInstr(fr *Frame, b *ssa.BasicBlock, st *State, in ssa.Instruc
 		srt := ArraySort(RefSort, curried(mi.kLeaves, BoolSort))
 		parr := x.heapArr(st, pk, srt)
 		st.heap[pk] = Store(parr, ref, constCurried(mi.kLeaves, BoolSort, False))
-		x.written[pk] = true
+		x.noteWrite(pk, ref)
 		lk := "ML:" + mi.key
 		larr := x.heapArr(st, lk, ArraySort(RefSort, IntSort))
 		st.heap[lk] = Store(larr, ref, IntLit(0))
-		x.written[lk] = true
+		x.noteWrite(lk, ref)
 		fr.regs[in] = scalar(t, ref)
 	case *ssa.MakeSlice:
 		n := x.val(fr, in.Len).Term
@@ -99,7 +99,7 @@ func (x *Exec) execInstr(fr *Frame, b *ssa.BasicBlock, st *State, in ssa.Instruc
 			key, stored, _ := x.leafKey(p, l)
 			arr := x.heapArr(st, key, stored)
 			st.heap[key] = Store(arr, ref, x.zeroOfSort(ArraySort(IntSort, l.Sort)))
-			x.written[key] = true
+			x.noteWrite(key, ref)
 		}
 		fr.regs[in] = &Value{K: KSlice, T: in.Type(), Ref: ref, Off: IntLit(0), Len: n}
 	case *ssa.MakeInterface:
@@ -198,10 +198,13 @@ func constCurried(ks []Leaf, v *Sort, val *Term) *Term {
 
 func (x *Exec) freshRef(st *State, prefix string) *Term {
 	x.allocN++
+	x.allocOff++
+	x.freshNames[sanitize(prefix)] = true
 	r := x.ctx.Fresh(prefix, RefSort)
+	x.freshRefs[r.Name] = true
 	// allocation identity: fresh objects differ from null, from each other, and from everything
 	// that existed at function entry / was produced by an earlier havoc (allocId <= 0 there).
-	x.facts = append(x.facts, Neq(r, x.null()), Eq(x.ctx.App("allocId", IntSort, r), IntLit(int64(x.allocN))))
+	x.facts = append(x.facts, Neq(r, x.null()), Eq(x.ctx.App("allocId", IntSort, r), x.allocNow()))
 	x.useAxioms("alloc")
 	return r
 }
@@ -212,6 +215,11 @@ func (x *Exec) checkNonNil(fr *Frame, st *State, p *Value, pos token.Pos, what s
 	}
 	if p.P.Cell != nil || p.P.Global != "" {
 		return
+	}
+	if what == "load" || what == "store" {
+		if len(p.P.Path) > 0 || p.P.Elem {
+			return // already checked where the interior pointer was formed
+		}
 	}
 	if p.P.Base.Op == "const" && (len(p.P.Base.Name) > 4 && (p.P.Base.Name[:4] == "new_" || p.P.Base.Name[:4] == "arr_")) {
 		return
@@ -699,7 +707,7 @@ func (x *Exec) convert(fr *Frame, st *State, in *ssa.Convert) *Value {
 				srt := ArraySort(RefSort, ArraySort(IntSort, IntSort))
 				arr := x.heapArr(st, key, srt)
 				st.heap[key] = Store(arr, ref, x.sbytes(v.Term))
-				x.written[key] = true
+				x.noteWrite(key, ref)
 				return &Value{K: KSlice, T: in.Type(), Ref: ref, Off: IntLit(0), Len: x.slen(v.Term)}
 			}
 			failf("string to %s conversion", in.Type())
@@ -950,7 +958,8 @@ func (x *Exec) next(fr *Frame, st *State, in *ssa.Next) *Value {
 	x.assume(st, Implies(Not(okT), allSeen))
 	// ranging over a nil map yields nothing
 	x.assume(st, Implies(Eq(it.mapR, x.null()), Not(okT)))
-	nseen := Ite(okT, storeN(seen, ks, True), seen)
+	// (when ok is false the loop is left and the extra key is harmless: 'seen' only grows)
+	nseen := storeN(seen, ks, True)
 	st.cells[it.cell] = &Value{K: KScalar, Term: x.name("seen", nseen)}
 	x.cellsW[it.cell] = true
 	val := x.mapGetRaw(st, it.mapT, it.mapR, k)
@@ -979,4 +988,41 @@ func (x *Exec) panicReached(fr *Frame, st *State, in *ssa.Panic) {
 	}
 	x.safetyOblige(fr, st, "panic", "panic reachable", allowed, in.Pos())
 	st.guard = False
+}
+
+// allocNow is the current value of the (symbolic) allocation counter.
+func (x *Exec) allocNow() *Term {
+	if x.allocBase == nil {
+		return IntLit(int64(x.allocOff))
+	}
+	return Add(x.allocBase, IntLit(int64(x.allocOff)))
+}
+
+// allocEpoch starts a new allocation epoch (after a havoc): everything that exists now has an
+// allocation id <= the new base; later allocations get larger ids.
+func (x *Exec) allocEpoch() *Term {
+	prev := x.allocNow()
+	b := x.ctx.Fresh("allocBase", IntSort)
+	x.facts = append(x.facts, Ge(b, prev))
+	x.allocBase = b
+	x.allocOff = 0
+	return b
+}
+
+// boundRefs assumes allocId <= bound for every reference leaf of v.
+func (x *Exec) boundRefs(v *Value, bound *Term) {
+	if v.K == KPtr && (v.P.Cell != nil) {
+		return
+	}
+	if v.K == KFunc && v.Term == nil {
+		return
+	}
+	func() {
+		defer func() { recover() }()
+		for _, t := range leafTerms(v) {
+			if t.Sort.Kind == SRef {
+				x.facts = append(x.facts, Le(x.ctx.App("allocId", IntSort, t), bound))
+			}
+		}
+	}()
 }
